@@ -327,6 +327,23 @@ func init() {
 				}
 				ops = append(pre, ops...)
 			}
+			if r.Float64() < 0.25 {
+				// a NESTED directory whose descendants share leading characters with the path is
+				// renamed (and renamed back into a fresh name) at the end of the history
+				top := "/zq" + u.Comps[0]
+				src := top + "/" + u.Comps[len(u.Comps)-1]
+				tail := []Op{{K: "mkdir", P: top, M: 0o755}, {K: "mkdir", P: src, M: 0o755}}
+				for i, k := range u.Comps {
+					if i%2 == 0 {
+						tail = append(tail, Op{K: "writefile", P: src + "/" + k, D: &Data{Len: 1 + i, Kind: "text", Tag: uint32(2000 + i)}})
+					} else {
+						tail = append(tail, Op{K: "mkdir", P: src + "/" + k, M: 0o755},
+							Op{K: "writefile", P: src + "/" + k + "/" + u.Comps[0], D: &Data{Len: 2, Kind: "text", Tag: uint32(2100 + i)}})
+					}
+				}
+				tail = append(tail, Op{K: "rename", P: src, Q: top + "/zq-renamed"}, Op{K: "mkdirall", P: top + "/zq-renamed/" + u.Comps[0] + "-x/y", M: 0o755})
+				ops = append(ops, tail...)
+			}
 			c.Ops = ops
 			c.S["style"] = u.Style
 			return c
